@@ -79,6 +79,10 @@ type c15Case struct {
 	Dir        int       `json:"dir"` // 0: client sends
 	Sends      []c15Send `json:"sends"`
 	LoseFlight bool      `json:"lose"` // lose one handshake datagram so that a retransmission is measured too
+	// RBuf > 0: payloads sent with Write are read with a buffer of this size; when such a payload fits one
+	// record and is followed by a WriteTo payload, the reader calls ReadFrom after its first short Read
+	// and collects the rest of the first payload afterwards (mixed use of the two reading calls)
+	RBuf int `json:"rbuf,omitempty"`
 }
 
 func c15Run(c c15Case) (sig, msg string, known string) {
@@ -128,7 +132,49 @@ func c15Run(c c15Case) (sig, msg string, known string) {
 		return nil
 	}
 	rcv := func(cn *Conn) error {
-		for _, s := range c.Sends {
+		skip := -1
+		for si, s := range c.Sends {
+			if si == skip {
+				continue
+			}
+			if c.RBuf > 0 && !s.WriteTo && s.Size <= max && s.Size > c.RBuf && si+1 < len(c.Sends) && c.Sends[si+1].WriteTo && c.Sends[si+1].Size <= max {
+				// short Read, ReadFrom (the next datagram), then the rest of the first payload
+				head := make([]byte, c.RBuf)
+				n, err := cn.Read(head)
+				if err != nil {
+					recv = append(recv, got{head[:n], err})
+					return nil
+				}
+				big := make([]byte, 20000)
+				m, _, err2 := cn.ReadFrom(big)
+				tail, err3 := vfRecvN(cn, s.Size-n)
+				recv = append(recv, got{append(append([]byte(nil), head[:n]...), tail...), err3})
+				recv = append(recv, got{append([]byte(nil), big[:m]...), err2})
+				if err2 != nil || err3 != nil {
+					return nil
+				}
+				skip = si + 1
+				continue
+			}
+			if c.RBuf > 0 && !s.WriteTo && s.Size > 0 {
+				var all []byte
+				buf := make([]byte, c.RBuf)
+				var rerr error
+				for len(all) < s.Size && rerr == nil {
+					want := s.Size - len(all)
+					if want > len(buf) {
+						want = len(buf)
+					}
+					var n int
+					n, rerr = cn.Read(buf[:want])
+					all = append(all, buf[:n]...)
+				}
+				recv = append(recv, got{all, rerr})
+				if rerr != nil {
+					return nil
+				}
+				continue
+			}
 			if s.WriteTo && s.Size <= max {
 				buf := make([]byte, 20000)
 				n, _, err := cn.ReadFrom(buf)
@@ -332,7 +378,7 @@ func TestVF_C15(t *testing.T) {
 				if !vfMine(idx) {
 					continue
 				}
-				c := c15Case{Suite: suite, CPMTU: pmtu, SPMTU: pmtu, Dir: dir, LoseFlight: pmtu >= 1399 && dir == 0}
+				c := c15Case{Suite: suite, CPMTU: pmtu, SPMTU: pmtu, Dir: dir, LoseFlight: pmtu >= 1399 && dir == 0, RBuf: []int{0, 7, 100}[idx%3]}
 				for _, sz := range sizes {
 					if sz < 0 {
 						continue
@@ -353,7 +399,8 @@ func TestVF_C15(t *testing.T) {
 		pm := func(l string) int {
 			return rapid.OneOf(rapid.IntRange(min, 300), rapid.IntRange(min, 2000), rapid.SampledFrom([]int{0, 1400, 16397, 16500, 30000})).Draw(t, l)
 		}
-		c := c15Case{Suite: suite, CPMTU: pm("cpmtu"), SPMTU: pm("spmtu"), Dir: rapid.IntRange(0, 1).Draw(t, "dir"), LoseFlight: rapid.IntRange(0, 3).Draw(t, "lose") == 0}
+		c := c15Case{Suite: suite, CPMTU: pm("cpmtu"), SPMTU: pm("spmtu"), Dir: rapid.IntRange(0, 1).Draw(t, "dir"), LoseFlight: rapid.IntRange(0, 3).Draw(t, "lose") == 0,
+			RBuf: rapid.SampledFrom([]int{0, 0, 1, 7, 100, 700}).Draw(t, "rbuf")}
 		sp := c.CPMTU
 		if c.Dir == 1 {
 			sp = c.SPMTU
